@@ -100,8 +100,14 @@ def impl(t, case):
     for k in range(32):
         fl = dict(skip_id=bool(k & 1), skip_origin=bool(k & 2), skip_content_id=bool(k & 4),
                   skip_non_compare=bool(k & 8), skip_non_init=bool(k & 16))
-        unsorted_ = list(n.get_properties(**fl))
-        sorted_ = list(n.get_properties(**fl, sort_keys=True))
+        # the flags are positional-or-keyword parameters in the documented order: both spellings, alternating which result
+        # feeds the comparison with the model (seeded change C12-7: two positional parameters swapped)
+        pos = tuple(fl.values())
+        unsorted_ = list(n.get_properties(**fl)) if k % 2 else list(n.get_properties(*pos))
+        sorted_ = list(n.get_properties(*pos, sort_keys=True)) if k % 2 else list(n.get_properties(**fl, sort_keys=True))
+        if [f.name for _, f in n.get_properties(*pos)] != [f.name for _, f in n.get_properties(**fl)] \
+                or [f.name for f in cls.get_property_fields(*pos)] != [f.name for f in cls.get_property_fields(**fl)]:
+            return Con("PositionalDiffers", k)
         for v, f in unsorted_ + sorted_:
             assert getattr(n, f.name) is v or getattr(n, f.name) == v
         combos.append([[f.name for _, f in unsorted_], [f.name for _, f in sorted_],
